@@ -120,3 +120,28 @@ struct env_bundle_t { bool backing_up_report; bool nowarn; bool use_stdout; };
 struct env_bundle_t env;
 void good_stats(void) { if (env.use_stdout) putc('t', stderr); }
 void content_depends(void) { if (env.use_stdout) fputs("/* to stdout */\n", stdout); }	/* control */
+
+/* ---------------------------------------------------------------- R6 */
+struct ctrl_bundle_t { bool fulltbl; bool fullspd; };
+struct ctrl_bundle_t ctrl;
+int *base, *dfaacc, *accsiz, *dhash, lastdfa;
+void setup(void)
+{
+	base = allocate_array(100, sizeof(int)); dfaacc = allocate_array(100, sizeof(int));
+	accsiz = allocate_array(100, sizeof(int)); dhash = allocate_array(100, sizeof(int));
+}
+void place(int statenum, int pos) { base[statenum] = pos; }
+void build(void)
+{
+	int i;
+	if (ctrl.fullspd) place(0, 7);			/* conforming: slot 0 through a parameter */
+	if (ctrl.fulltbl) accsiz[0] = 0;		/* slot 0 only under another option */
+	for (i = 1; i <= lastdfa; ++i) { dfaacc[i] = i; dhash[i] = i; }	/* control: dfaacc[0] never stored */
+	dhash[0] = 0;
+}
+void dump_base(void) { int i; for (i = 0; i <= lastdfa; ++i) mkdata(base[i]); }
+void dump_hash(void) { mkdata(dhash[0]); }
+void dump_acc(void) { int i; for (i = 0; i <= lastdfa; ++i) mkdata(dfaacc[i]); }		/* control */
+void dump_wrongopt(void) { int i; for (i = 1; i <= lastdfa + 1; ++i) mkdata(accsiz[i - 1]); }	/* control */
+void make_tables(void) { if (ctrl.fullspd) { dump_base(); dump_acc(); dump_wrongopt(); } dump_hash(); }
+int flex_main(void) { setup(); build(); make_tables(); return 0; }
